@@ -3,6 +3,7 @@
   the caller's state is related to the callee's state, and the substituted body follows.
 -/
 import ExoModel.Lemmas.InlineCall
+import ExoModel.Lemmas.InlineRefl
 
 set_option linter.unusedSectionVars false
 set_option linter.unusedVariables false
@@ -265,18 +266,15 @@ theorem inline_sound {f : Proc} {args : List Expr} {B : List Stmt}
     rw [hib] at hi hrest
     simp only [] at hi
     simp only [Bool.and_eq_true, Bool.not_eq_true'] at hrest
-    obtain ⟨⟨hpure, hnw⟩, hrest⟩ := hrest
+    obtain ⟨⟨⟨hpure, hnw⟩, _⟩, hbf⟩ := hrest
     cases hsl : substL θ f.body with
     | none => rw [hsl] at hi; cases hi
     | some body =>
-      rw [hsl] at hi hrest
-      simp only [] at hrest
+      rw [hsl] at hi
       simp only [Option.some.injEq] at hi
       subst hi
-      cases hm : matchL θ f.body body with
-      | none => rw [hm] at hrest; simp at hrest
-      | some θ' =>
-        have hfr' : ∀ z, z ∈ formalNames f.args → ∀ a, a ∈ args → mentionsE z a = false := by
+      obtain ⟨θ', hm⟩ := matchL_of_subst f.body body θ hsl hbf
+      · have hfr' : ∀ z, z ∈ formalNames f.args → ∀ a, a ∈ args → mentionsE z a = false := by
           intro z hz a ha
           simp only [formalsFresh, List.all_eq_true, Bool.not_eq_true'] at hfr
           exact hfr z hz a ha
